@@ -4,14 +4,16 @@ import contracts.storage as ST
 import contracts.standins_storage as B
 import contracts.standins_chunk as BC
 
-PROVED = [ST.saver_save, ST.saver_close, ST.save_from]
+PROVED = [ST.saver_save, ST.saver_close, ST.save_from, ST.read_and_format, ST.read_format_split]
 
 PROPERTY = Property(
     "C03", "proof",
     contracts=PROVED,
     standins=[StandIn("save -> load round trip on the real file backend", B.round_trip, B.round_trip.harness,
                       budget={"quick": 200, "thorough": 8000}),
-              StandIn("rechunker stream", BC.rechunker_stream, BC.rechunker_stream.harness)],
+              StandIn("rechunker stream", BC.rechunker_stream, BC.rechunker_stream.harness),
+              StandIn("multi-megabyte chunk through every codec", B.big_round_trip, B.big_round_trip.harness,
+                      budget={"quick": 4, "thorough": 8})],
     trusted=["pyvc VC generator and value model", "z3 5.1.0 / cvc5 1.4.0",
              "library contract of concurrent.futures.wait (partition of the given futures)",
              "library model of filtering list comprehensions"],
